@@ -130,8 +130,25 @@ func runFilterSession(plan FilterPlan, onStep func(fs *FilterSession, st *StepOb
 	fs := &FilterSession{Session: s, Plan: plan, Liars: map[string]*netsim.Liar{},
 		Behav: map[string]PeerBehaviour{}, OnStep: onStep, gate: gate}
 	g := s.G
-	fs.Trunk = g.Extend(g.Genesis, plan.ChainLen, chaingen.PaceNormal)
+	// first = the tip the session starts from: the final trunk's, or (two-stage
+	// sessions) the tip of the shorter stage-1 chain.
+	var first *chaingen.Node
+	if plan.PreLen > 0 && plan.PreLen < plan.ChainLen {
+		pre := g.Extend(g.Genesis, plan.PreLen, chaingen.PaceNormal)
+		first = pre[len(pre)-1]
+		f := first
+		if plan.PreFork > 0 && plan.PreFork < plan.PreLen {
+			f = first.Ancestor(first.Height - int32(plan.PreFork))
+		}
+		rest := g.Extend(f, plan.ChainLen-int(f.Height), chaingen.PaceNormal)
+		fs.Trunk = rest[len(rest)-1].Path()[1:]
+	} else {
+		fs.Trunk = g.Extend(g.Genesis, plan.ChainLen, chaingen.PaceNormal)
+	}
 	tip := fs.Trunk[len(fs.Trunk)-1]
+	if first == nil {
+		first = tip
+	}
 	if plan.SnapOmit {
 		plan.Behaviours = snapOmitLies(plan.Behaviours, fs.Trunk)
 		fs.Plan = plan
@@ -140,9 +157,9 @@ func runFilterSession(plan FilterPlan, onStep func(fs *FilterSession, st *StepOb
 		return fs, err
 	}
 	plan.BlockFault.install(fs)
-	s.View.SetTip(tip)
+	s.View.SetTip(first)
 	for i, b := range plan.Behaviours {
-		p, err := s.AddPeer(tip.Height, wire.SFNodeNetwork|wire.SFNodeWitness|wire.SFNodeCF)
+		p, err := s.AddPeer(first.Height, wire.SFNodeNetwork|wire.SFNodeWitness|wire.SFNodeCF)
 		if err != nil {
 			return fs, err
 		}
@@ -170,7 +187,7 @@ func runFilterSession(plan FilterPlan, onStep func(fs *FilterSession, st *StepOb
 		}
 		return fs, err
 	}
-	if err := fs.syncHeaders(tip, "ext"); err != nil {
+	if err := fs.syncHeaders(first, "ext"); err != nil {
 		return fail(err)
 	}
 	if plan.Legacy {
@@ -232,6 +249,45 @@ func runFilterSession(plan FilterPlan, onStep func(fs *FilterSession, st *StepOb
 		if plan.ReorgAt == "store.afterAncestors" {
 			s.hooked.setAfterAncestors(func() { inject("store.afterAncestors") })
 			defer s.hooked.setAfterAncestors(nil)
+		}
+	}
+
+	// Stage 1 of a two-stage session: filter rounds until the filter headers
+	// reached the stage-1 tip (or two rounds in a row brought nothing); then
+	// the honest chain becomes the final trunk and its block headers are
+	// synced, which leaves the filter tip wherever stage 1 put it.
+	if first != tip {
+		for round, idle := 0, 0; round < 12 && idle < 2; round++ {
+			progress, err := fs.Round()
+			if err != nil {
+				return fail(err)
+			}
+			if progress {
+				idle = 0
+			} else {
+				idle++
+			}
+			if _, ft, e := s.Stores.Filter.ChainTip(); e == nil && ft >= uint32(first.Height) {
+				break
+			}
+		}
+		if _, ft, e := s.Stores.Filter.ChainTip(); e == nil {
+			fs.Stage1Tip = int(ft)
+		}
+		s.View.SetTip(tip)
+		kind := "ext"
+		if chaingen.ForkPoint(first, tip) != first {
+			kind = "fork"
+		}
+		s.note("stage 2: honest chain now ends at %d (stage-1 tip %d, fork point %d, filter tip %d)",
+			tip.Height, first.Height, chaingen.ForkPoint(first, tip).Height, fs.Stage1Tip)
+		if err := fs.syncHeaders(tip, kind); err != nil {
+			return fail(err)
+		}
+		_, bt, e1 := s.Stores.Block.ChainTip()
+		_, ft, e2 := s.Stores.Filter.ChainTip()
+		if e1 == nil && e2 == nil && bt > ft {
+			fs.Stage2Lag = int(bt - ft)
 		}
 	}
 
@@ -327,8 +383,10 @@ func (fs *FilterSession) Provable() bool {
 			honest = true
 		}
 		for _, l := range b.Lies {
-			// A modifier of the peer's other lies, not a lie of its own.
-			ok := l.Kind == netsim.LieRejoin
+			// A modifier of the peer's other lies, not a lie of its own; a
+			// truncated batch says nothing false about any block (whatever
+			// is committed from it is the truth or another lie's doing).
+			ok := l.Kind == netsim.LieRejoin || l.Kind == netsim.LieTruncate
 			for _, k := range netsim.ProvableLies {
 				if l.Kind == k {
 					ok = true
@@ -366,7 +424,7 @@ func (fs *FilterSession) ProvableGivenCheckpoints() bool {
 			}
 		}
 		for _, l := range b.Lies {
-			ok := l.Kind == netsim.LieRejoin
+			ok := l.Kind == netsim.LieRejoin || l.Kind == netsim.LieTruncate
 			for _, k := range netsim.ProvableLies {
 				if l.Kind == k {
 					ok = true
